@@ -570,6 +570,12 @@ func (g *gen) rawExpr(k kind, depth int, class string) string {
 					}
 					return `env("VERIF_ENV_A")`
 				}
+				if g.pct("varhelper", 12) {
+					// a helper whose trailing parameter differs from caller to caller (options map, helper context, a plain
+					// value): what plush fills in for the omitted argument depends on the function that is bound NOW
+					g.feat("helper_with_caller_dependent_signature")
+					return "vh(" + g.expr(kInt, depth-1, "go-helper-arg") + ")"
+				}
 				h := []string{"upcase", "downcase", "capitalize", "pluralize", "singularize", "camelize", "dasherize", "underscore", "ordinalize", "camelize_down_first", "jsEscape", "htmlEscape"}[g.intn("infl", 0, 11)]
 				return h + "(" + g.expr(kStr, depth-1, "go-helper-arg") + ")"
 			}
@@ -1200,7 +1206,13 @@ func (g *gen) forPiece(depth int) {
 		g.feat("for_iterator")
 		iter, ek = "between(0, "+fmt.Sprint(g.intn("hi", 0, 4))+")", kInt
 	case 6:
-		iter, ek = "obj.Tags", kStr
+		if g.pct("closingiter", 50) {
+			// a caller-supplied Iterator that also has a Close() error method
+			g.feat("for_iterator_with_close_method")
+			iter, ek = "citer()", kInt
+		} else {
+			iter, ek = "obj.Tags", kStr
+		}
 	case 7:
 		g.feat("for_single_map")
 		iter, ek = "one", kInt // single-entry Go map: no order to vary
